@@ -517,7 +517,6 @@ func c32Release(c *Ctx) {
 	hh := fn.Params[2]
 	isQueue := g8FieldOf(fStore, g8Is(hh))
 	completes := callsIn(fn, Ref{"", "HandshakeManager", "Complete"})
-	loops := findRangeLoops(fn, isQueue)
 	if len(completes) != 1 {
 		c.Unknown("C32.release", "continueHandshake:Complete", fmt.Sprintf("expected one Complete call, found %d", len(completes)))
 		return
@@ -527,43 +526,178 @@ func c32Release(c *Ctx) {
 		c.Bad("C32.release", "continueHandshake:release-after-Complete", c.instrPos(comp), "Complete is deferred: the queue is released before the tunnel is in the main hostmap and while new packets can still be queued")
 		return
 	}
+	top := fn
+	tunnel := callArgs(comp)[1]
+	isTunnel := func(v ssa.Value) bool { return g8Same(v, tunnel) }
+	tunnelBound := true
+	emptyGuard := func(isQ func(ssa.Value) bool) Guard {
+		return Guard{Name: "queue empty", Match: func(cd Cond, _ *ssa.If) (bool, bool) {
+			if cd.Kind != CondCmp {
+				return false, false
+			}
+			bo := cd.Base.(*ssa.BinOp)
+			if !isLenOf(isQ)(bo.X) || !isIntConst(0)(bo.Y) {
+				return false, false
+			}
+			op := bo.Op
+			if cd.Neg {
+				op = negOp(op)
+			}
+			switch op {
+			case token.GTR, token.NEQ:
+				return true, false
+			case token.EQL, token.LEQ:
+				return true, true
+			}
+			return false, false
+		}}
+	}
+	// every path start -> return of f passes `site` (skipped only when the queue is empty)
+	passesSite := func(f *ssa.Function, start ssa.Instruction, isSite func(ssa.Instruction) bool, isQ func(ssa.Value) bool) []*ssa.Return {
+		skip, _ := passEdges(f, emptyGuard(isQ))
+		var bad []*ssa.Return
+		for _, r := range g8Returns(f) {
+			if start == nil {
+				// from the entry: the first instruction itself may be the site
+				if len(f.Blocks[0].Instrs) > 0 && isSite(f.Blocks[0].Instrs[0]) {
+					continue
+				}
+				if av, _ := c.avoidsCutEdges(f, f.Blocks[0].Instrs[0], r, isSite, skip); av {
+					bad = append(bad, r)
+				}
+				continue
+			}
+			if av, _ := c.avoidsCutEdges(f, start, r, isSite, skip); av {
+				bad = append(bad, r)
+			}
+		}
+		return bad
+	}
+	// The release loop lives in continueHandshake itself, or in a same-package helper that
+	// continueHandshake calls with the pending handshake (or its queue): follow the delegation
+	// (up to 3 levels), re-binding the queue and the completed tunnel to the helper's parameters.
+	loops := findRangeLoops(fn, isQueue)
+	isBase := g8Is(hh) // the pending handshake whose queue is released
+	var siteTop ssa.Instruction // in continueHandshake: the delegating call (nil: the loop itself)
+	var missedReturns []*ssa.Return
+	start := ssa.Instruction(comp)
+	for level := 0; len(loops) == 0 && level < 3; level++ {
+		type cand struct {
+			call  *ssa.Call
+			h     *ssa.Function
+			isHH  func(ssa.Value) bool
+			isQ   func(ssa.Value) bool
+			loops []loopInfo
+			deep  bool
+		}
+		var cands []cand
+		eachInstr(fn, func(in ssa.Instruction) {
+			h := fix5Helper(in)
+			if h == nil || h == fn || h == top {
+				return
+			}
+			call := in.(*ssa.Call)
+			hset, qset := map[int]bool{}, map[int]bool{}
+			for j, a := range call.Call.Args {
+				if j >= len(h.Params) {
+					break
+				}
+				if isBase(a) {
+					hset[j] = true
+				}
+				if isQueue(a) {
+					qset[j] = true
+				}
+			}
+			if len(hset)+len(qset) == 0 {
+				return
+			}
+			isHH, isQP := g8IsParamIn(h, hset), g8IsParamIn(h, qset)
+			isQ := func(v ssa.Value) bool { return g8FieldOf(fStore, isHH)(v) || isQP(v) }
+			ls := findRangeLoops(h, isQ)
+			deep := false
+			if len(ls) == 0 {
+				// one more level: does the helper hand the queue on?
+				eachInstr(h, func(in2 ssa.Instruction) {
+					if h2 := fix5Helper(in2); h2 != nil {
+						for _, a := range in2.(*ssa.Call).Call.Args {
+							if isQ(a) || isHH(a) {
+								deep = true
+							}
+						}
+					}
+				})
+			}
+			if len(ls) > 0 || deep {
+				cands = append(cands, cand{call, h, isHH, isQ, ls, deep})
+			}
+		})
+		// keep only candidates that lead to a loop
+		var withLoop, onlyDeep []cand
+		for _, cd := range cands {
+			if len(cd.loops) > 0 {
+				withLoop = append(withLoop, cd)
+			} else {
+				onlyDeep = append(onlyDeep, cd)
+			}
+		}
+		pick := withLoop
+		if len(pick) == 0 {
+			pick = onlyDeep
+		}
+		if len(pick) != 1 {
+			break
+		}
+		cd := pick[0]
+		if inAnyLoop(naturalLoops(fn), cd.call.Block()) {
+			c.Unknown("C32.release", "continueHandshake:release-loop", "the helper holding the release loop is called from inside a loop of "+fnName(fn)+": cannot decide that the queue is released exactly once")
+			return
+		}
+		isCall := func(in ssa.Instruction) bool { return in == ssa.Instruction(cd.call) }
+		missedReturns = append(missedReturns, passesSite(fn, start, isCall, isQueue)...)
+		if siteTop == nil {
+			siteTop = cd.call
+		}
+		// re-bind the completed tunnel
+		tset := map[int]bool{}
+		for j, a := range cd.call.Call.Args {
+			if tunnelBound && isTunnel(a) {
+				tset[j] = true
+			}
+		}
+		tunnelBound = len(tset) > 0
+		isTunnel = g8IsParamIn(cd.h, tset)
+		c.Funcs[cd.h.String()] = true
+		fn, isQueue, isBase, loops, start = cd.h, cd.isQ, cd.isHH, cd.loops, nil
+	}
 	if len(loops) != 1 {
+		// is there a release loop somewhere this rule did not follow to?
+		elsewhere := 0
+		if len(loops) == 0 {
+			for _, f := range c.moduleFuncs() {
+				if f != top && len(findRangeLoops(f, func(v ssa.Value) bool { return g8LoadedField(v) == fStore })) > 0 {
+					elsewhere++
+				}
+			}
+		}
+		if elsewhere > 0 {
+			c.Unknown("C32.release", "continueHandshake:release-loop", fmt.Sprintf("no range loop over hh.packetStore in continueHandshake or in a helper it hands the pending handshake to; %d other function(s) of the module loop over a packetStore: the release was moved to a place this rule does not follow", elsewhere))
+			return
+		}
 		c.Check(false, "C32.release", "continueHandshake:release-loop", c.instrPos(comp), "", fmt.Sprintf("expected one index-order range loop over hh.packetStore, found %d: queued packets are not released exactly once in order", len(loops)))
 		return
 	}
 	li := loops[0]
-	tunnel := callArgs(comp)[1]
-	c.Check(g8Dominates(comp, li.Header.Instrs[0]), "C32.release", "continueHandshake:release-after-Complete", c.instrPos(li.Header.Instrs[0]), "the loop runs after Complete", "the queue is released on a path that has not completed the handshake: the tunnel is not yet in the main hostmap and new packets can still be queued behind the loop")
-	// every completing path releases (skipped only when the queue is empty)
-	empty := Guard{Name: "queue empty", Match: func(cd Cond, _ *ssa.If) (bool, bool) {
-		if cd.Kind != CondCmp {
-			return false, false
-		}
-		bo := cd.Base.(*ssa.BinOp)
-		if !isLenOf(isQueue)(bo.X) || !isIntConst(0)(bo.Y) {
-			return false, false
-		}
-		op := bo.Op
-		if cd.Neg {
-			op = negOp(op)
-		}
-		switch op {
-		case token.GTR, token.NEQ:
-			return true, false
-		case token.EQL, token.LEQ:
-			return true, true
-		}
-		return false, false
-	}}
-	skip, _ := passEdges(fn, empty)
-	okAll := true
-	for _, r := range g8Returns(fn) {
-		if av, _ := c.avoidsCutEdges(fn, comp, r, func(in ssa.Instruction) bool { return in.Block() == li.Header }, skip); av {
-			okAll = false
-			c.Bad("C32.release", "continueHandshake:release-on-every-completing-path", c.instrPos(r), "after Complete the function can return without running the release loop although packets are queued: they are never sent")
-		}
+	if siteTop == nil {
+		siteTop = li.Header.Instrs[0]
 	}
-	if okAll {
+	c.Check(g8Dominates(comp, siteTop), "C32.release", "continueHandshake:release-after-Complete", c.instrPos(siteTop), "the loop runs after Complete", "the queue is released on a path that has not completed the handshake: the tunnel is not yet in the main hostmap and new packets can still be queued behind the loop")
+	// every completing path releases (skipped only when the queue is empty)
+	missedReturns = append(missedReturns, passesSite(fn, start, func(in ssa.Instruction) bool { return in.Block() == li.Header }, isQueue)...)
+	for _, r := range missedReturns {
+		c.Bad("C32.release", "continueHandshake:release-on-every-completing-path", c.instrPos(r), "after Complete the function can return without running the release loop although packets are queued: they are never sent")
+	}
+	if len(missedReturns) == 0 {
 		c.OK("C32.release", "continueHandshake:release-on-every-completing-path", "skipped only when the queue is empty")
 	}
 	// the loop body: one call of the element's own callback per iteration
@@ -633,5 +767,10 @@ func c32Release(c *Ctx) {
 	c.Check(fieldOfElem("callback")(cb.Call.Value), "C32.release", "continueHandshake:release-loop:own-callback", c.instrPos(cb), "the element's own callback", "the callback invoked is not the current element's own: data packets could be released through a sender that skips the firewall")
 	okArgs := len(a) >= 4 && fieldOfElem("messageType")(a[0]) && fieldOfElem("messageSubType")(a[1]) && fieldOfElem("packet")(a[3])
 	c.Check(okArgs, "C32.release", "continueHandshake:release-loop:own-fields", c.instrPos(cb), "type, subtype and bytes of the current element", "the callback is not given the current element's type, subtype and bytes")
-	c.Check(len(a) >= 3 && g8Same(a[2], tunnel), "C32.release", "continueHandshake:release-loop:completed-tunnel", c.instrPos(cb), "released on the tunnel that was just completed", "the queued packets are released on a different tunnel than the one Complete added")
+	if !tunnelBound {
+		c.Unknown("C32.release", "continueHandshake:release-loop:completed-tunnel", "the helper holding the release loop is not handed the completed tunnel as an argument: cannot tie the tunnel it releases on to the one Complete added")
+		return
+	}
+	c.Check(len(a) >= 3 && isTunnel(a[2]), "C32.release", "continueHandshake:release-loop:completed-tunnel", c.instrPos(cb), "released on the tunnel that was just completed", "the queued packets are released on a different tunnel than the one Complete added")
 }
+
